@@ -8,6 +8,7 @@ import E2P.Generated.GrammarRank
 import Mathlib.Tactic.Linarith
 import E2P.Lemmas.LexLemmas
 import E2P.Lemmas.PegMemo
+import E2P.Lemmas.PegSteps
 namespace E2P.C06
 open E2P E2P.C05
 
@@ -305,13 +306,44 @@ theorem parse_total_memo (toks : List Tok) :
 /-- a table that is NOT sound does change the answer (why the hypothesis is there, and what a table kept across two
     `AstBuilder.parse` calls would do): with a stale entry for `(EntryPointToken, 2)` the tokens `= 1` are rejected -/
 example : (pegGetM generated 20 "EntryPointToken" [("EqOperatorToken", "="), ("LiteralToken", "1")]
-      ⟨[(("EntryPointToken", 2), .none)], 0⟩).1 matches .none := by decide +kernel
+      ⟨[(("EntryPointToken", 2), .none)], []⟩).1 matches .none := by decide +kernel
 
 /-- non-vacuity: a nested formula is accepted by the memoised parser with fewer `_get` executions than table keys -/
 example : (match astBuildM generated 60 "EntryPointToken"
       [("EqOperatorToken", "="), ("BracketStartToken", "("), ("BracketStartToken", "("), ("LiteralToken", "1"),
        ("BracketFinishToken", ")"), ("BracketFinishToken", ")")] with
     | (.accept _, n) => decide (n ≤ 7 * generated.composites.length) | _ => false) = true := by decide +kernel
+
+/-- **`_get` runs at most once per (class, position)** - every grammar without left recursion, every token list, every
+    outcome (tree, rejection, exception, even depth exhaustion): the number of `_get` executions of one `AstBuilder.parse`
+    with the memo table is at most `|composite classes| * (|tokens| + 1)`.  The log of executed keys never repeats a key:
+    a key is executed only while the table has no entry for it, a completed execution leaves its entry, and executions in
+    progress have a strictly larger measure `remaining * (R+1) + rank` than the one that starts (Lemmas/PegSteps.lean). -/
+theorem parse_steps_bound (rk : String → Nat) (R : Nat) (hrk : RankOK G rk R) (hnd : G.composites.Nodup) (fuel : Nat)
+    (entry : String) (he : entry ∈ G.composites) (toks : List Tok) :
+    (astBuildM G fuel entry toks).2 ≤ G.composites.length * (toks.length + 1) :=
+  PegSteps.steps_bound G rk R hrk hnd fuel entry he toks
+
+/-- checked on the regenerated table: no composite class is listed twice and the entry rule is one of them -/
+theorem generated_composites_ok : generated.composites.Nodup ∧ "EntryPointToken" ∈ generated.composites := by decide
+
+/-- **The parser of this run is polynomial**: on every token list, with the proved depth, the memoised `AstBuilder.parse`
+    answers as the parser without a table does, accepts a tree covering all tokens or rejects, and executes `_get` at most
+    `|classes| * (|tokens| + 1)` times.  (The C06 check compares this very count with the real parser's on every generated
+    formula.) -/
+theorem generated_parse_steps_bound (toks : List Tok) :
+    (astBuildM generated (toks.length * 6 + 6) "EntryPointToken" toks).2 ≤ generated.composites.length * (toks.length + 1) ∧
+      (astBuildM generated (toks.length * 6 + 6) "EntryPointToken" toks).1 =
+        astBuild generated (toks.length * 6 + 6) "EntryPointToken" toks :=
+  ⟨parse_steps_bound generated rankFn 5 (rankOK_of_check generated 5 generated_rank_check.1) generated_composites_ok.1 _ _
+    generated_composites_ok.2 toks, (parse_total_memo toks).1⟩
+
+/-- non-vacuity: three nested brackets, evaluated - the count of the memoised parser is within the bound (the un-memoised
+    parser re-parsed the inner span once per alternative: the repaired defect "exponential re-parsing") -/
+example : (astBuildM generated 60 "EntryPointToken"
+      [("EqOperatorToken", "="), ("BracketStartToken", "("), ("BracketStartToken", "("), ("BracketStartToken", "("),
+       ("LiteralToken", "1"), ("BracketFinishToken", ")"), ("BracketFinishToken", ")"), ("BracketFinishToken", ")")]).2
+    ≤ generated.composites.length * 9 := by decide +kernel
 
 /-! ### the regex lexer ends on every text -/
 
